@@ -32,9 +32,45 @@ def ref_text(home, r):
 
 
 def render_c11(inst):
-    """Instance (CompilePipeline.tla) -> list of {name, file, text}; one module / submodule per text."""
+    """Instance (CompilePipeline.tla) -> list of {name, file, text}; one module / submodule per text.
+    A scope "m1" is the top level of module m1, "m1.x1" the container x1 of m1."""
     mods = []
     subs = {s: b for s, b in inst["subs"]}
+
+    def def_lines(h, m, ind):
+        L = []
+        for d in sorted((d for d in inst["defs"] if d["home"] == h), key=lambda d: (d["k"], d["n"])):
+            refs = sorted(ref_text(m, r) for r in d["refs"])
+            if d["k"] == "feature":
+                L.append(ind + ("feature %s {%s }" % (d["n"], "".join(" if-feature %s;" % r for r in refs)) if refs else "feature %s;" % d["n"]))
+            elif d["k"] == "identity":
+                L.append(ind + ("identity %s {%s }" % (d["n"], "".join(" base %s;" % r for r in refs)) if refs else "identity %s;" % d["n"]))
+            elif d["k"] == "typedef":
+                L.append(ind + "typedef %s { type %s; }" % (d["n"], refs[0] if refs else "string"))
+            elif d["k"] == "grouping":
+                uses = "".join(" uses %s;" % r for r in refs)
+                inner = uses if d["nest"] else ""
+                outer = "" if d["nest"] else uses
+                L.append(ind + 'grouping %s { container k%s { leaf l%s { type string; default "d0"; }%s }%s }'
+                         % (d["n"], d["n"], d["n"], inner, outer))
+        return L
+
+    def root_lines(h, m, ind):
+        L = []
+        for r in sorted((r for r in inst["roots"] if r["home"] == h), key=lambda r: (r["k"], r["n"], r["m"])):
+            rt = ref_text(m, r)
+            if r["k"] == "grouping":
+                L.append(ind + "uses %s;" % rt)
+            elif r["k"] == "typedef":
+                L.append(ind + "leaf rt%s { type %s; }" % (r["n"], rt))
+            elif r["k"] == "subtype":
+                L.append(ind + "leaf ru%s { type t%s; }" % (r["n"], r["n"]))
+            elif r["k"] == "identity":
+                L.append(ind + "leaf ri%s { type identityref { base %s; } }" % (r["n"], rt))
+            elif r["k"] == "feature":
+                L.append(ind + "leaf rf%s { if-feature %s; type string; }" % (r["n"], rt))
+        return L
+
     for m in sorted(inst["mods"]):
         L = ["module %s {" % m, ' namespace "urn:%s";' % m, " prefix %s;" % pfx(m)]
         for a, t in sorted(inst["imp"]):
@@ -43,36 +79,18 @@ def render_c11(inst):
         for u, s in sorted(inst["inc"]):
             if u == m:
                 L.append(" include %s;" % s)
-        defs = sorted((d for d in inst["defs"] if d["home"] == m), key=lambda d: (d["k"], d["n"]))
-        for d in defs:
-            refs = sorted(ref_text(m, r) for r in d["refs"])
-            if d["k"] == "feature":
-                L.append(" feature %s {%s }" % (d["n"], "".join(" if-feature %s;" % r for r in refs)) if refs else " feature %s;" % d["n"])
-            elif d["k"] == "identity":
-                L.append(" identity %s {%s }" % (d["n"], "".join(" base %s;" % r for r in refs)) if refs else " identity %s;" % d["n"])
-            elif d["k"] == "typedef":
-                L.append(" typedef %s { type %s; }" % (d["n"], refs[0] if refs else "string"))
-            elif d["k"] == "grouping":
-                uses = "".join(" uses %s;" % r for r in refs)
-                inner = uses if d["nest"] else ""
-                outer = "" if d["nest"] else uses
-                L.append(' grouping %s { container k%s { leaf l%s { type string; default "d0"; }%s }%s }'
-                         % (d["n"], d["n"], d["n"], inner, outer))
+        L += def_lines(m, m, " ")
         L.append(" container t%s {" % m)
         L.append("  leaf l0 { type string; }")
-        for r in sorted((r for r in inst["roots"] if r["home"] == m), key=lambda r: (r["k"], r["n"])):
-            rt = ref_text(m, r)
-            if r["k"] == "grouping":
-                L.append("  uses %s;" % rt)
-            elif r["k"] == "typedef":
-                L.append("  leaf rt%s { type %s; }" % (r["n"], rt))
-            elif r["k"] == "subtype":
-                L.append("  leaf ru%s { type t%s; }" % (r["n"], r["n"]))
-            elif r["k"] == "identity":
-                L.append("  leaf ri%s { type identityref { base %s; } }" % (r["n"], rt))
-            elif r["k"] == "feature":
-                L.append("  leaf rf%s { if-feature %s; type string; }" % (r["n"], rt))
+        L += root_lines(m, m, "  ")
         L.append(" }")
+        scopes = sorted(set(x["home"] for x in inst["defs"] + inst["roots"] if x["home"].startswith(m + ".")))
+        for h in scopes:
+            L.append(" container %s {" % h.split(".", 1)[1])
+            L.append("  leaf l0 { type string; }")
+            L += def_lines(h, m, "  ")
+            L += root_lines(h, m, "  ")
+            L.append(" }")
         for a in sorted(inst["augs"], key=lambda a: (a["m"], a["t"], a["n"])):
             if a["m"] == m:
                 p = pfx(a["t"])
@@ -287,11 +305,25 @@ def run_c11(ctx):
     res = read_ndjson(cout)
     if len(res) != len(cases):
         raise Infra("cc run returned %d results for %d cases" % (len(res), len(cases)))
+    # C11 quantifies over sets of PARSEABLE modules: an instance the parser refuses is outside the property.
+    # The parser keeps the groupings / typedefs of all sibling statements in one symbol table, so the same name
+    # in two sibling scopes (legal YANG) and a scope shadowing the top level (illegal) both end as parse errors.
+    # Only instances with scoped definitions may end like this; anything else is a fault of the renderer.
+    unparseable = 0
+    keep = []
+    for v, c, o in zip(vecs, cases, res):
+        if any(r["verdict"] == "parse-error" for r in o["runs"]):
+            if not any("." in d["home"] for d in v["inst"]["defs"]):
+                raise Infra("rendered modules do not parse: " + o["runs"][0]["err"][:300] + "\n" + c["mods"][0]["text"])
+            if len(set(r["verdict"] for r in o["runs"])) == 1:
+                unparseable += 1
+                continue
+        keep.append((v, c, o))
     # 3. trace: one run = init, phase events, end
     lines = []
     orders_seen = set()
     raw_differs = 0
-    for v, c, o in zip(vecs, cases, res):
+    for v, c, o in keep:
         if len(set(r["raw"] for r in o["runs"] if r["verdict"] == "ok")) > 1:
             raw_differs += 1
         for j, r in enumerate(o["runs"]):
@@ -333,7 +365,7 @@ def run_c11(ctx):
                           how="save {id,mods,off} as case.json; <scratch>/bin/cc one case.json (VERIF_KEEP=1 bin/check C11)"))
     # replay: the compiled schema is the spec's schema
     nschema = 0
-    for v, c, o in zip(vecs, cases, res):
+    for v, c, o in keep:
         if v["verdict"] == "ok" and v["judgeSchema"] and o["runs"] and o["runs"][0]["verdict"] == "ok" and (v and c["id"]) not in seen:
             nschema += 1
             real = project(json.loads(json.dumps(o["first"])))
@@ -352,6 +384,7 @@ def run_c11(ctx):
                samples=samples, compilations_per_instance=K, distinct_event_orders_observed=len(orders_seen),
                trace_events=events, schema_compared=nschema, instances_whose_raw_api_order_differs=raw_differs,
                expect_error=sum(1 for v in vecs if v["verdict"] == "error"), expect_ok=sum(1 for v in vecs if v["verdict"] == "ok"),
+               unparseable_unjudged=unparseable, twin_instances=sum(1 for v in vecs if v["inst"]["shape"].startswith("twin")),
                verdict_unjudged=sum(1 for v in vecs if not v["judgeVerdict"]), schema_unjudged=sum(1 for v in vecs if v["verdict"] == "ok" and not v["judgeSchema"]),
                exhaustive=not quick,
                explanation="TLC explored every order of every loop of the pipeline for every instance (states/transitions) and checked termination and "
